@@ -9,11 +9,11 @@ D=$(mktemp -d /tmp/ujseed.XXXXXX)
 cp -r /repo/src /repo/tests /repo/pyproject.toml $D/ 2>/dev/null
 ( cd $D && git init -q . && git add -A >/dev/null && git -c user.email=a@b -c user.name=x commit -qm base >/dev/null && git apply "$DIFF" ) || { echo "APPLY-FAILED"; rm -rf $D; exit 2; }
 echo "== suite with change:"; ( cd $D && PYTHONPATH=$D/src timeout 600 /venv/bin/python -m pytest -q -p no:cacheprovider 2>&1 | tail -1 )
-echo "== demo with change:";  ( cd $D && PYTHONPATH=$D/src timeout 300 /venv/bin/python "$DEMO" >/tmp/ujseed.demo.out 2>&1; echo "exit=$?"; tail -2 /tmp/ujseed.demo.out )
-echo "== demo without change:"; ( cd /repo && PYTHONPATH=/repo/src timeout 300 /venv/bin/python "$DEMO" >/tmp/ujseed.demo.out 2>&1; echo "exit=$?"; tail -1 /tmp/ujseed.demo.out )
+echo "== demo with change:";  ( cd $D && PYTHONPATH=$D/src timeout 300 /venv/bin/python "$DEMO" >$D.demo.out 2>&1; echo "exit=$?"; tail -2 $D.demo.out )
+echo "== demo without change:"; ( cd /repo && PYTHONPATH=/repo/src timeout 300 /venv/bin/python "$DEMO" >$D.demo.out 2>&1; echo "exit=$?"; tail -1 $D.demo.out )
 cd /verif
 for P in "$@"; do
   echo "== check $P (${TIER:-quick}) against the changed copy:"
   VERIF_REPO=$D timeout 1500 ./check $P --no-build ${TIER:+--tier $TIER} 2>&1 | grep -v "^Traceback\|^  File\|^    " | tail -${TAIL:-3}
 done
-rm -rf $D /tmp/ujseed.demo.out
+rm -rf $D $D.demo.out
